@@ -14,8 +14,47 @@ use crate::pay::MItem;
 pub struct Case {
     pub sc: Scenario,
     pub module: usize,
+    /// 0..=4 transport / content sabotage of the module (see World::sabotage);
+    /// 5 = the broken repository publishes a CA chain deeper than max-ca-depth;
+    /// 6 = a CA in the broken repository issues a certificate whose SIA claims a publication point
+    ///     below its own manifest *file* (`<manifest URI>/`)
     pub kind: u8,
     pub warm: bool,
+}
+
+pub const KEY_NESTED_SIA: &str = "C41/run-fails-on-broken-repository/sia-below-a-manifest-file";
+
+/// The scenario the faulty run uses (kinds 5 and 6 add CAs to the broken repository).
+fn faulty_scenario(c: &Case) -> Scenario {
+    let mut sc = c.sc.clone();
+    let host_ca = sc.cas.iter().position(|ca| ca.module == c.module);
+    let Some(host_ca) = host_ca else { return sc };
+    let mk_ver = || Version { number: 5, this_off: -7200, next_off: 86400, crl_next_off: 86400, ee_after_off: 86400 * 7, objs: vec![Obj { kind: ObjKind::Roa { extra: 0, maxlen_delta: 0, v6: false }, not_after: 86400 * 7, fault: None }], fault: None, omit_children: vec![] };
+    match c.kind {
+        5 => {
+            // a chain of max_depth + 2 more CAs, all published in the broken module
+            sc.cfg.max_depth = sc.cfg.max_depth.min(6);
+            let mut parent = host_ca;
+            let extra = sc.cfg.max_depth + 2;
+            for _ in 0..extra {
+                let i = sc.cas.len();
+                if i >= 30 {
+                    break;
+                }
+                sc.cas.push(Ca { parent: Some(parent), key: i, module: c.module, not_after: 86400 * 365, cert_fault: None, versions: vec![mk_ver()], extra_res: None, ta_alt: vec![], sia_under_parent_mft: false });
+                parent = i;
+            }
+        }
+        6 => {
+            let i = sc.cas.len();
+            sc.cas.push(Ca { parent: Some(host_ca), key: i, module: c.module, not_after: 86400 * 365, cert_fault: None, versions: vec![mk_ver()], extra_res: None, ta_alt: vec![], sia_under_parent_mft: true });
+        }
+        _ => {}
+    }
+    for st in sc.steps.iter_mut() {
+        st.publish = vec![0; sc.cas.len()];
+    }
+    sc
 }
 
 fn case(words: &[u16]) -> Case {
@@ -27,7 +66,7 @@ fn case(words: &[u16]) -> Case {
         d.next();
     }
     let module = d.below(3);
-    let kind = d.below(5) as u8;
+    let kind = d.below(7) as u8;
     let warm = d.chance(1, 2);
     Case { sc, module, kind, warm }
 }
@@ -46,15 +85,23 @@ fn affected(sc: &Scenario, module: usize) -> BTreeSet<usize> {
 }
 
 fn run_world(c: &Case, faulty: bool) -> Result<BTreeSet<MItem>, String> {
-    let mut world = World::new(&c.sc, scratch_base());
-    let step = c.sc.steps[0].clone();
+    let sc = if faulty { faulty_scenario(c) } else { c.sc.clone() };
+    if faulty && c.kind >= 5 && c.kind != 6 {
+        // the depth bound must be the same in both runs
+    }
+    let mut sc_used = sc.clone();
+    if c.kind == 5 {
+        sc_used.cfg.max_depth = sc_used.cfg.max_depth.min(6);
+    }
+    let mut world = World::new(&sc_used, scratch_base());
+    let step = sc_used.steps[0].clone();
     let ex = empty_exceptions();
     if c.warm {
         world.publish(&step);
         world.run(false, &ex)?;
     }
     world.publish(&step);
-    if faulty {
+    if faulty && c.kind < 5 {
         world.sabotage(c.module, c.kind);
     }
     let out = world.run(false, &ex)?;
@@ -62,6 +109,13 @@ fn run_world(c: &Case, faulty: bool) -> Result<BTreeSet<MItem>, String> {
 }
 
 fn prop(c: &Case, info: &mut CaseInfo) -> Verdict {
+    prop_opt(c, info, false)
+}
+
+fn prop_opt(c: &Case, info: &mut CaseInfo, run_known: bool) -> Verdict {
+    if c.kind == 6 && !run_known && is_listed_known("C41", KEY_NESTED_SIA) {
+        return Verdict::Dropped(format!("excluded-known-shape:{}", KEY_NESTED_SIA));
+    }
     let sc = &c.sc;
     let aff = affected(sc, c.module);
     let owners = owner_map(sc);
@@ -79,7 +133,10 @@ fn prop(c: &Case, info: &mut CaseInfo) -> Verdict {
     };
     let faulty = match run_world(c, true) {
         Ok(x) => x,
-        Err(e) => return Verdict::fail("C41/run-fails-on-broken-repository", format!("module {} kind {}: {}", c.module, c.kind, e)),
+        Err(e) => {
+            let key = if c.kind == 6 { KEY_NESTED_SIA.to_string() } else { format!("C41/run-fails-on-broken-repository/kind={}", c.kind) };
+            return Verdict::fail(key, format!("module {} kind {}: {}", c.module, c.kind, e));
+        }
     };
     // the affected CAs' resources (for the unsafe filter under reject): items inside them may be removed
     let in_affected_space = |it: &MItem| -> bool {
@@ -100,13 +157,21 @@ fn prop(c: &Case, info: &mut CaseInfo) -> Verdict {
 }
 
 pub fn run(ctx: &Ctx, rep: &mut Report, replay: Option<&serde_json::Value>) {
-    rep.rule("pairs of runs over identical E-rpki trees (1-2 TALs, up to 8 CAs over 3 rsync modules) from identical pre-states (empty or warmed cache): one clean, one where a chosen module is unreachable / serves garbage / serves truncated files / withholds everything but manifests / serves files with flipped bytes; metamorphic oracle: the run succeeds and every item owned by a CA that is neither published in the broken module nor a descendant of one is served identically in both runs; non-trivial = the broken module hosts a CA and an unrelated CA with payload exists; distinct by serialised case");
+    rep.rule("pairs of runs over identical E-rpki trees (1-2 TALs, up to 8 CAs over 3 rsync modules) from identical pre-states (empty or warmed cache): one clean, one where a chosen module is unreachable / serves garbage / serves truncated files / withholds everything but manifests / serves files with flipped bytes / additionally publishes a CA chain deeper than max-ca-depth / contains a CA certificate whose SIA claims a publication point below the issuer's manifest file; metamorphic oracle: the run succeeds and every item owned by a CA that is neither published in the broken module nor a descendant of one is served identically in both runs; non-trivial = the broken module hosts a CA and an unrelated CA with payload exists; distinct by serialised case");
     rep.assume("slots of different CAs never overlap, so the unsafe-VRP filter can only remove items of affected CAs (C08 covers overlapping resources)");
     ctx.shrink_iters.store(100, std::sync::atomic::Ordering::Relaxed);
     if let Some(v) = replay {
         let t: Tagged<Case> = serde_json::from_value(v.clone()).expect("replay");
         run_case(ctx, rep, &t.sub, &t.case, prop);
         return;
+    }
+    // directed representative of the nested-SIA shape (re-confirms a listed finding, or guards the fix)
+    {
+        let mut d = case(&[7u16; 200]);
+        d.kind = 6;
+        d.module = d.sc.cas[0].module;
+        d.warm = false;
+        run_case(ctx, rep, "pairs", &d, |c, i| prop_opt(c, i, true));
     }
     run_prop_par(ctx, rep, "pairs", ctx.tier.pick(200, 4000), 8, || genome(200).prop_map(|w| case(&w)), prop);
 }
